@@ -63,7 +63,11 @@ pub fn edit_text(rng: &mut SplitMix, text: &mut String) {
 fn item_texts(rng: &mut SplitMix, cols: u32, pool: &[String]) -> Vec<String> {
     (0..cols)
         .map(|_| {
-            if !pool.is_empty() && rng.below(3) == 0 {
+            if rng.below(14) == 0 {
+                // a column the fill callback leaves empty (only negated atoms and the empty
+                // pattern match it)
+                String::new()
+            } else if !pool.is_empty() && rng.below(3) == 0 {
                 pick(rng, pool)
             } else {
                 rstr(rng, ITEM_ALPHA, 1, 6)
